@@ -10,14 +10,6 @@ struct c02_snap { unsigned char sk, sj; int vk, vj; };
 struct c02_snap g_cb, g_ad, g_rs, g_cl, g_h0, g_h1, g_cc, g_er;
 const ELEM *g_ad_first0;
 
-#ifdef REPLAY
-#define C02_BASE(p) ((ELEM *)(p))
-#define C02_NSLOTS(p) ((size_t)0)
-#else
-#define C02_BASE(p) ((ELEM *)(p) - (ptrdiff_t)C02_IDX(p))
-#define C02_NSLOTS(p) ((size_t)(__CPROVER_OBJECT_SIZE(p) C02_SHR))
-#endif
-
 /* snapshot of the tracked slots of the block that holds p (0 when the block has no such slot) */
 static inline void g_snap_take(struct c02_snap *g, const ELEM *p)
 {
